@@ -5,3 +5,8 @@ pub open spec fn alloc_budget() -> nat { 0xffff_ffff_ffff_ffff_ffff_ffff }
 pub fn alloc_fill_v(e: u8, n: usize) -> (r: Vec<u8>)
     ensures r@ == filled(e, n as nat)
 { unimplemented!() }
+// Vec::with_capacity(n) (rule R25): an allocation of n elements up front
+#[verifier::external_body]
+pub fn vec_with_capacity_v<T>(n: usize) -> (r: Vec<T>)
+    ensures r@ == Seq::<T>::empty()
+{ unimplemented!() }
